@@ -295,7 +295,11 @@ def run_check(prop, streams, argv, level_text='', trusted_base=(), assumptions=(
         'coverage': {
             'obligations': max(obligations, 1), 'discharged': discharged,
             'checker_cmd': 'make -C coq (coqc 8.16.1, full .vo) ; coqc Props/%s.v with Print Assumptions' % prop,
-            'trusted_base': list(trusted_base),
+            'trusted_base': list(trusted_base) + ([
+                'translator tie: py2v/core.py (meaning given to Python control statements through Base/PyMonad.v) and the '
+                'leaf tables / pinned texts of py2v/schemas.py, py2v/pins.json for [%s]; the generated definitions are '
+                'type-checked and proved equal to the model (coq/Equiv) on this run' % ', '.join(translated)]
+                if translated else []),
             'theorems': props_info.get('theorems', []),
             'axioms_reported': props_info.get('axioms', []),
             'evaluations': total_eval, 'distinct_nontrivial': total_nontrivial,
